@@ -546,7 +546,9 @@ func (s *Sim) releaseAll() {
 // settle waits until every goroutine of the bubble is parked or durably
 // blocked, then processes what the clients received.
 func (s *Sim) settle() {
+	simProgress.Add(1)
 	synctest.Wait()
+	simProgress.Add(1)
 	for _, c := range s.Clients {
 		c.drainInbox()
 	}
